@@ -1,6 +1,45 @@
-(* C04 - power-loss safety: every fsync the argument needs is present and ordered in the source
-   (regenerated on every run; the protocol theorem over the disk model is in progress). *)
-From Nomt Require Import SrcFacts_proofs.
+(* C04 - Durability never depends on unsynced data (power-loss safety). *)
+From Nomt Require Import Base SyncProto SyncProto_proofs SrcFacts_proofs.
+
+(* For EVERY trace accepted by the monitor, every cut and EVERY subset of the not-yet-fsynced
+   operations surviving: exactly the old or exactly the new state. *)
+Theorem C04_powerloss_atomic : forall I d0 tr,
+  inst_ok I -> start_ok I d0 -> wal_safe I d0 -> discipline I d0 tr = true ->
+  forall n img, pl_image (drun d0 (firstn n tr)) img ->
+    (recover I img = ROld \/ recover I img = RNew) /\
+    (forall iw, index_of is_meta_write tr = Some iw -> n <= iw -> recover I img = ROld) /\
+    (forall is_, index_of is_meta_sync tr = Some is_ -> is_ < n -> recover I img = RNew).
+Proof. exact SyncProto_proofs.powerloss_atomic. Qed.
+Print Assumptions C04_powerloss_atomic.
+
+(* The hypothesis wal_safe cannot be dropped: the source skips the fsync of the post-meta WAL
+   truncation, so the previous multi-page blob may still be durable when the next sync rewrites
+   the WAL; a power loss can then leave the old header page followed by a page of the new blob,
+   which reopening would re-apply (F8).  A disciplined trace with such an image: *)
+Theorem C04_wal_unsafe_refuted : exists I d0 tr n img,
+  inst_ok I /\ start_ok I d0 /\ discipline I d0 tr = true /\
+  pl_image (drun d0 (firstn n tr)) img /\ recover I img = RBad.
+Proof. exact SyncProto_proofs.wal_unsafe_refuted. Qed.
+Print Assumptions C04_wal_unsafe_refuted.
+
+(* every fsync the monitor demands is necessary: dropping it admits an image that is neither *)
+Theorem C04_wal_fsync_necessary : exists I d0 tr n img,
+  inst_ok I /\ start_ok I d0 /\ wal_safe I d0 /\ discipline I d0 tr = false /\
+  pl_image (drun d0 (firstn n tr)) img /\ recover I img = RBad.
+Proof. exact SyncProto_proofs.wal_fsync_necessary. Qed.
+Print Assumptions C04_wal_fsync_necessary.
+
+Theorem C04_tree_fsync_necessary : exists I d0 tr n img,
+  inst_ok I /\ start_ok I d0 /\ wal_safe I d0 /\ discipline I d0 tr = false /\
+  pl_image (drun d0 (firstn n tr)) img /\ recover I img = RBad.
+Proof. exact SyncProto_proofs.tree_fsync_necessary. Qed.
+Print Assumptions C04_tree_fsync_necessary.
+
+Theorem C04_ht_fsync_necessary : exists I d0 tr n img,
+  inst_ok I /\ start_ok I d0 /\ wal_safe I d0 /\ discipline I d0 tr = false /\
+  pl_image (drun d0 (firstn n tr)) img /\ recover I img = RBad.
+Proof. exact SyncProto_proofs.ht_fsync_necessary. Qed.
+Print Assumptions C04_ht_fsync_necessary.
 
 Theorem C04_sync_phase_order : sync_order_ok = true /\ sync_order_ok2 = true.
 Proof. exact SrcFacts_proofs.sync_order_ok_true. Qed.
